@@ -934,14 +934,16 @@ class Gen:
         that is looked at after r's subtree."""
         w = self.w
         r = self.r("scscript")
-        roots = [h for h, o in w.handles.items() if not w.is_retired(o) and o.is_attached_root and self.clean(o) and 2 <= len(walk(o)) <= 10]
+        roots = [h for h, o in w.handles.items() if not w.is_retired(o) and o.is_attached_root and self.clean(o) and 3 <= len(walk(o)) <= 12]
         r.shuffle(roots)
         for h in roots:
             root = w.handles[h]
             paths = []
-            for f, i, c in children_of(root):
-                if L.PROP_FIELDS[cname(c)] and not c.detached:
-                    paths.append(([[f, i]], c))
+            for f, i, m in children_of(root):
+                # a GRANDchild: its replace() updates its (still attached) parent m, and stops there -- r is detached
+                for f2, i2, c in children_of(m):
+                    if L.PROP_FIELDS[cname(c)] and not c.detached:
+                        paths.append(([[f, i], [f2, i2]], c))
             if not paths:
                 continue
             path, c = r.choice(paths)
